@@ -454,6 +454,12 @@ pub fn start_senders(w: &Rc<World>, plan: &Rc<Plan>, sink: v5::MqttSink) {
                 if cb_sends {
                     let r = s.publish(ByteString::from_static("cb/q0")).send_at_most_once(Bytes::from_static(b"cb"));
                     w.probe(if r.is_ok() { "cb_send_ok" } else { "cb_send_err" });
+                    // ... and refills the window like a pipeline would: a non-blocking QoS 1 send from inside the
+                    // callback (at most two per run: each of them is acknowledged into this callback again)
+                    if !disc && s.is_ready() && w.cb_refill() {
+                        let r = s.publish(ByteString::from_static("cb/q1")).send_at_least_once_no_block(Bytes::from_static(b"cb"));
+                        w.probe(if r.is_ok() { "cb_refill_ok" } else { "cb_refill_err" });
+                    }
                 }
             }
             w.ack_cb(a.packet_id.get(), a.reason_code as u8, crate::common::user_props_sig(&a.properties, a.reason_string.as_ref()), disc);
